@@ -73,7 +73,7 @@ func makeReplay(rn *runner, v *variant, f foundViolation, shrink bool, tier stri
 			rp.Violation = *got
 		}
 	}
-	if !rp.Reproduced {
+	for attempt := 0; attempt < 2 && !rp.Reproduced; attempt++ {
 		if got := try(cur); got != nil {
 			rp.Reproduced = true
 			rp.Violation = *got
